@@ -345,13 +345,27 @@ fn canon_node(n: &Node, out: &mut String) {
 
 // ---- construction routes
 
+/// a Datetime built from the specification model's reading of the text, never through the parsers under test
+fn dt_from_model(d: &str) -> toml_edit::Datetime {
+    use toml_edit::{Date, Offset, Time};
+    let m = refmodel::parse_datetime_str(d).expect("leaf date-time");
+    toml_edit::Datetime {
+        date: m.date.map(|(year, month, day)| Date { year, month, day }),
+        time: m.time.map(|(hour, minute, second, nanosecond)| Time { hour, minute, second, nanosecond }),
+        offset: m.offset.map(|o| match o {
+            refmodel::Off::Z => Offset::Z,
+            refmodel::Off::Minutes(minutes) => Offset::Custom { minutes },
+        }),
+    }
+}
+
 fn leaf_value(l: &Leaf) -> Value {
     match l {
         Leaf::S(s) => Value::from(s.as_str()),
         Leaf::I(i) => Value::from(*i),
         Leaf::F(b) => Value::from(f64::from_bits(*b)),
         Leaf::B(b) => Value::from(*b),
-        Leaf::D(d) => Value::from(d.parse::<toml_edit::Datetime>().unwrap()),
+        Leaf::D(d) => Value::from(dt_from_model(d)),
     }
 }
 fn to_value(t: &T, route: usize) -> Value {
@@ -498,7 +512,7 @@ fn to_toml_value(t: &T) -> toml::Value {
         T::Leaf(Leaf::I(i)) => toml::Value::Integer(*i),
         T::Leaf(Leaf::F(b)) => toml::Value::Float(f64::from_bits(*b)),
         T::Leaf(Leaf::B(b)) => toml::Value::Boolean(*b),
-        T::Leaf(Leaf::D(d)) => toml::Value::Datetime(d.parse().unwrap()),
+        T::Leaf(Leaf::D(d)) => toml::Value::Datetime(dt_from_model(d)),
         T::Arr(a) => toml::Value::Array(a.iter().map(to_toml_value).collect()),
         T::Inl(e) | T::Tab(e) => toml::Value::Table(e.iter().map(|(k, v)| (k.clone(), to_toml_value(v))).collect()),
         T::Aot(els) => toml::Value::Array(els.iter().map(|el| toml::Value::Table(el.iter().map(|(k, v)| (k.clone(), to_toml_value(v))).collect())).collect()),
